@@ -454,7 +454,7 @@ def judge(ctx, case, obs):
         if obs['unresolved'] != leftover:
             ctx.fail(case, 'unresolved-reference report %r on a command line with%s leftover reference'
                      % (obs['unresolved'], '' if leftover else 'out'), cls)
-    if len(ctx.samples) < 5 and nsub >= 2 and ntok >= 2 and not cls:
+    if len(ctx.samples) < 5 and nsub >= 3 and ntok >= 3 and not cls and ctx.evaluations > 1200 + 500 * len(ctx.samples):
         ctx.sample({'stage': case['stage'], 'declared': [r['declared_as'] for r in dec],
                     'arguments': ''.join(s for _, s in case['pieces']), 'resolved': obs['out'], 'verdict': obs['verdict']})
 
@@ -491,7 +491,7 @@ def run(ctx):
     ex = exhaustive_pairs()
     ctx.count('exhaustive_pair_cases', len(ex))
     cases.extend(ex)
-    nbase = 420 if ctx.tier == 'quick' else 4000
+    nbase = 420 if ctx.tier == 'quick' else 2500
     n = 0
     while n < nbase:
         c = gen_case(rng)
